@@ -264,6 +264,8 @@ def _branch_and_price(
         all_proven = all_proven and proven
 
         if report_progress(on_progress, progress_interval, nodes_explored, lp_obj, best_obj, total_cg_iters):
+            # Stopped by the caller: this node was not branched, so nothing is proven
+            all_proven = False
             break
 
         # Prune infeasible or dominated
